@@ -6,6 +6,7 @@ from ..astutil import text, short, endswith, calls_in, walk_no_nested
 from ..dataflow import DefUse
 from .. import events as E
 from .c01 import INVERSE, undo_ctor_of
+from ._h_E import Flow, arg, argn, nargs
 
 EXPLANATION = (
   "Decides that the rollback path exists on every failing path and can work: apply_user_actions "
@@ -49,8 +50,12 @@ def r1_rollback(run, w):
       main = t
   if main is None:
     raise AnalysisError("apply_user_actions: guarded user-action loop not found")
-  loops = [s for s in main.body if isinstance(s, ast.For) and isinstance(s.iter, ast.Name)
-           and s.iter.id == p_actions]
+  def over_actions(it):
+    while isinstance(it, ast.Call) and dotted(it.func) in ("list", "iter", "tuple", "enumerate") \
+        and len(it.args) == 1:
+      it = it.args[0]
+    return isinstance(it, ast.Name) and it.id == p_actions
+  loops = [s for s in main.body if isinstance(s, ast.For) and over_actions(s.iter)]
   run.ob(R1, fn.qualname, "for user_action in %s: ... _apply_one_user_action" % p_actions,
          "every user action of the bundle is applied inside the guarded region",
          len(loops) == 1 and any(endswith(fn.name(c), "_apply_one_user_action")
@@ -63,6 +68,7 @@ def r1_rollback(run, w):
   if not cps:
     raise AnalysisError("apply_user_actions: checkpoint definition not found")
   cpnode, cpvar = cps[0]
+  flow = Flow(fn)
   first_try = [n for n in cfg.nodes if n.stmt is not None and n.stmt in main.body]
   ok = all(cfg.dominated_by(n.id, {cpnode.id}) for n in first_try)
   run.ob(R1, fn.qualname, "%s = self._get_undo_checkpoint()" % cpvar,
@@ -80,9 +86,9 @@ def r1_rollback(run, w):
          len(handlers) >= 1 and _catch_all(main.handlers[0]), fi=fn.fi, node=main)
   for h in handlers:
     hn = [n for n in cfg.nodes if n.kind == "handler" and n.stmt is h]
-    undo = fn.nodes_calling(lambda c, nm, f: endswith(nm, "_undo_to_checkpoint") and
-                            len(c.args) == 1 and isinstance(c.args[0], ast.Name) and
-                            c.args[0].id == cpvar)
+    undo = {n.id for (n, c, nm) in fn.calls() if endswith(nm, "_undo_to_checkpoint") and
+            nargs(c) == 1 and argn(w, fn, c, 0) is not None and
+            flow.denotes(argn(w, fn, c, 0), n.id, lambda v, k: v is cpnode.stmt.value)}
     for x in hn:
       ok = bool(undo) and cfg.postdominated_by(x.id, undo,
                                                exits={cfg.exit.id, cfg.raise_exit.id})
@@ -142,42 +148,57 @@ def r3_schema_restore(run, w):
           endswith(fn.name(c.func.args[0]) or "", "doc_actions")}
   if not disp:
     raise AnalysisError("apply_doc_action: dispatch not found")
-  # the schema-action test
-  tests = [n for n in cfg.nodes if n.kind == "if" and isinstance(n.stmt.test, ast.Compare) and
-           len(n.stmt.test.ops) == 1 and isinstance(n.stmt.test.ops[0], ast.In) and
-           endswith(dotted(n.stmt.test.comparators[0]), "schema_actions")]
-  if len(tests) != 1:
+  # the schema-action test: the edges on which `<applied action's type name> in schema_actions`
+  # is known to hold, however the branch is spelled
+  flow = Flow(fn, cfg)
+  param = fn.fi.params()[1]
+  def names_own_type(x, k):
+    t = flow.itext(x, k, stop=(param,))
+    return t in ("%s.__class__.__name__" % param, "type(%s).__name__" % param)
+  seen_tests = []
+  def is_schema_action(e, i):
+    if isinstance(e, ast.Compare) and len(e.ops) == 1 and isinstance(e.ops[0], ast.In) and \
+        endswith(dotted(e.comparators[0]), "schema_actions"):
+      if e not in seen_tests:
+        seen_tests.append(e)
+      return True
+    return False
+  def not_schema_action(e, i):
+    if isinstance(e, ast.Compare) and len(e.ops) == 1 and isinstance(e.ops[0], ast.NotIn) and \
+        endswith(dotted(e.comparators[0]), "schema_actions"):
+      if e not in seen_tests:
+        seen_tests.append(e)
+      return True
+    return False
+  edges = flow.edges_where(is_schema_action, True) | flow.edges_where(not_schema_action, False)
+  if len(seen_tests) != 1 or not edges:
     raise AnalysisError("apply_doc_action: `action_name in actions.schema_actions` test not found")
-  t = tests[0]
-  # the tested name is the class name of the action being applied
-  tested = t.stmt.test.left
-  ok_name = isinstance(tested, ast.Name) and any(
-    text(v) == "%s.__class__.__name__" % fn.fi.params()[1]
-    for v in E.local_defs(fn.node, tested.id))
-  run.ob(R3, fn.qualname, short(t.stmt.test), "the protection test is on the applied action's "
-         "own type name", ok_name, fi=fn.fi, node=t.stmt)
+  tnode = cfg.nodes[next(iter(edges))[0]]
+  tested = seen_tests[0].left
+  run.ob(R3, fn.qualname, short(seen_tests[0]), "the protection test is on the applied action's "
+         "own type name", names_own_type(tested, tnode.id), fi=fn.fi, node=tnode.stmt)
   # clone nodes: <var> = schema.clone_schema(self.schema)
+  def is_clone(x, k=None):
+    return isinstance(x, ast.Call) and endswith(dotted(x.func), "clone_schema") and \
+        nargs(x) == 1 and bool(x.args) and text(x.args[0]) == "self.schema"
   clones = {}
   for n in cfg.nodes:
-    if n.kind == "stmt" and isinstance(n.stmt, ast.Assign) and isinstance(n.stmt.value, ast.Call) \
-        and endswith(dotted(n.stmt.value.func), "clone_schema") and \
-        len(n.stmt.value.args) == 1 and text(n.stmt.value.args[0]) == "self.schema" and \
+    if n.kind == "stmt" and isinstance(n.stmt, ast.Assign) and is_clone(n.stmt.value) and \
         isinstance(n.stmt.targets[0], ast.Name):
       clones[n.id] = n.stmt.targets[0].id
-  body_first = {n.id for n in cfg.nodes if n.stmt is not None and t.stmt.body and
-                n.stmt is t.stmt.body[0]}
+  body_first = {b for (a_, b) in edges}
   # on the schema-action branch every path to the dispatch takes a fresh clone
   reach = cfg.reach(body_first, removed=set(clones))
-  ok = bool(clones) and not (reach & disp) and body_first <= set(cfg.reach({t.id}))
+  ok = bool(clones) and not (reach & disp) and not (body_first & disp)
   wit = None
   if not ok and clones:
-    for b in body_first:
-      p = cfg.path(b, disp, removed=set(clones))
-      if p:
-        wit = cfg.describe_path(p)
+    for b_ in body_first:
+      p_ = cfg.path(b_, disp, removed=set(clones))
+      if p_:
+        wit = cfg.describe_path(p_)
   run.ob(R3, fn.qualname, "saved = schema.clone_schema(self.schema) on the schema-action branch",
          "a fresh copy of the schema is taken before every schema doc action is dispatched", ok,
-         witness=wit, fi=fn.fi, node=t.stmt)
+         witness=wit, fi=fn.fi, node=tnode.stmt)
   # _schema_updated = True before dispatch on that branch
   flag = {n.id for n in cfg.nodes if n.kind == "stmt" and isinstance(n.stmt, ast.Assign) and
           text(n.stmt.targets[0]) == "self._schema_updated" and
@@ -187,11 +208,13 @@ def r3_schema_restore(run, w):
          "the consistency assertion is armed before the schema can change",
          bool(flag) and not (reach & disp), fi=fn.fi)
   # the handler around the dispatch
+  dstmts = [cfg.nodes[d].stmt for d in disp]
   trys = [s for s in ast.walk(fn.node) if isinstance(s, ast.Try) and
-          any(cfg.nodes[d].stmt in s.body for d in disp)]
-  if len(trys) != 1:
-    raise AnalysisError("apply_doc_action: dispatch is not directly inside one try")
-  tr = trys[0]
+          any(x is d for d in dstmts for b_ in s.body for x in ast.walk(b_))]
+  if not trys:
+    raise AnalysisError("apply_doc_action: dispatch is not inside a try")
+  trys.sort(key=lambda t_: sum(1 for _ in ast.walk(t_)))
+  tr = trys[0]      # innermost
   run.ob(R3, fn.qualname, "except Exception around the dispatch",
          "a failing doc action is caught for schema restoration",
          bool(tr.handlers) and _catch_all(tr.handlers[0]), fi=fn.fi, node=tr)
@@ -200,8 +223,13 @@ def r3_schema_restore(run, w):
     clone_vars = set(clones.values())
     restore = [s for s in ast.walk(ast.Module(body=h.body, type_ignores=[]))
                if isinstance(s, ast.Assign) and text(s.targets[0]) == "self.schema"]
-    ok = len(restore) == 1 and isinstance(restore[0].value, ast.Name) and \
-        restore[0].value.id in clone_vars
+    ok = len(restore) == 1
+    if ok:
+      for k in flow.where(restore[0]):
+        ls = flow.leaves(restore[0].value, k)
+        ok = ok and any(is_clone(l.expr) for l in ls) and \
+            all(is_clone(l.expr) or (isinstance(l.expr, ast.Constant) and l.expr.value is None)
+                for l in ls)
     run.ob(R3, fn.qualname, "self.schema = <this call's clone>",
            "the handler reinstates the copy taken for this very doc action (a local, not state "
            "shared across doc actions)", ok, fi=fn.fi, node=h)
@@ -226,9 +254,14 @@ def r3_schema_restore(run, w):
                                                              if n.kind == "raise_stmt"})
            or _handler_always_raises(cfg, hn, h), fi=fn.fi, node=h)
     # the restore is conditional only on the clone itself
-    guards = [s for s in h.body if isinstance(s, ast.If) and restore and
-              any(x is restore[0] for x in ast.walk(s))]
-    ok = all(isinstance(g.test, ast.Name) and g.test.id in clone_vars for g in guards)
+    hbody = {id(x) for s_ in h.body for x in ast.walk(s_)}
+    ok = True
+    for k in (flow.where(restore[0]) if restore else []):
+      for (t, pol, i) in flow.required_facts(k):
+        if id(cfg.nodes[i].stmt) not in hbody:
+          continue     # a test outside the handler
+        ok = ok and pol is True and isinstance(t, ast.Name) and \
+            any(is_clone(l.expr) for l in flow.leaves(t, i))
     run.ob(R3, fn.qualname, "if <clone>: restore", "the restore is conditional only on a clone "
            "having been taken", ok, fi=fn.fi, node=h)
 
@@ -266,8 +299,10 @@ def r4_formula_side_effects(run, w):
   run.ob(R4, fn.qualname, "%s = self._get_undo_checkpoint() before col.method(...)" % cpvar,
          "side effects of user code are bracketed by a checkpoint",
          all(cfg.dominated_by(m, {cpnode.id}) for m in methods), fi=fn.fi, node=cpnode.stmt)
-  undo = fn.nodes_calling(lambda c, nm, f: endswith(nm, "_undo_to_checkpoint") and len(c.args) == 1
-                          and isinstance(c.args[0], ast.Name) and c.args[0].id == cpvar)
+  flow = Flow(fn)
+  undo = {n.id for (n, c, nm) in fn.calls() if endswith(nm, "_undo_to_checkpoint") and
+          nargs(c) == 1 and argn(w, fn, c, 0) is not None and
+          flow.denotes(argn(w, fn, c, 0), n.id, lambda v, k: v is cpnode.stmt.value)}
   bare = [n for n in cfg.nodes if n.kind == "handler" and n.stmt.type is None]
   run.ob(R4, fn.qualname, "bare except around the user code",
          "every exception of user code, BaseException included, reaches the undoing branch",
@@ -287,8 +322,10 @@ def r4_formula_side_effects(run, w):
   if not cps or not ev:
     raise AnalysisError("get_formula_value: checkpoint or evaluation not found")
   cpvar = cps[0][1]
-  undo = gv.nodes_calling(lambda c, nm, f: endswith(nm, "_undo_to_checkpoint") and len(c.args) == 1
-                          and isinstance(c.args[0], ast.Name) and c.args[0].id == cpvar, cfg)
+  gflow = Flow(gv, cfg)
+  undo = {n.id for (n, c, nm) in gv.calls(cfg) if endswith(nm, "_undo_to_checkpoint") and
+          nargs(c) == 1 and argn(w, gv, c, 0) is not None and
+          gflow.denotes(argn(w, gv, c, 0), n.id, lambda v, k: v is cps[0][0].stmt.value)}
   ok = all(cfg.dominated_by(e, {cps[0][0].id}) for e in ev) and all(
     cfg.postdominated_by(e, undo, exits={cfg.exit.id, cfg.raise_exit.id}) for e in ev)
   run.ob(R4, gv.qualname, "try: _recompute_one_cell(...) finally: _undo_to_checkpoint(%s)" % cpvar,
